@@ -25,7 +25,7 @@ from .sched import LineTracer, SimAbort
 
 PROP = "C17"
 
-MODES = ["runner", "with_I", "with_C", "direct"]
+MODES = ["runner", "with_I", "with_C", "direct", "nested_runner"]
 CTX_KINDS = ["image_name", "related_ids", "service_roles", "kms_alias", "accounts",
              "launch_configs", "subscription_filters", "text_from", "value_from"]
 PURE_KINDS = ["intersect", "difference", "unique_size", "normalize", "glob", "cidr_contains",
@@ -407,6 +407,16 @@ def gen_params(r: Any, kind: str) -> Dict[str, Any]:
     elif kind == "glob":
         p["text"] = "".join(r.choice(_GLOB_TEXT) for _ in range(r.randrange(0, 5)))
         p["pat"] = "".join(r.choice(_GLOB_PAT_ATOMS) for _ in range(r.randrange(0, 4)))
+    elif kind == "cidr_contains" and r.random() < 0.35:
+        # two canonical networks (or a network and its first address) that start at the same,
+        # well-aligned address: containment is decided by the prefix lengths alone
+        anchor = ref_c7n.ip_int(r.choice(["10.0.0.0", "0.0.0.0", "192.168.0.0", "128.0.0.0",
+                                          "172.16.0.0", "10.1.0.0", "224.0.0.0", "192.168.1.0"]))
+        tz = 32 if anchor == 0 else (anchor & -anchor).bit_length() - 1
+        lo = 32 - tz  # shortest prefix for which the anchor has no host bits
+        pl, ql = r.randrange(lo, 33), r.randrange(lo, 33)
+        p["net"] = f"{ref_c7n.int_ip(anchor)}/{pl}"
+        p["other"] = ref_c7n.int_ip(anchor) if r.random() < 0.15 else f"{ref_c7n.int_ip(anchor)}/{ql}"
     elif kind == "cidr_contains":
         net, base, plen = _rand_net(r)
         p["net"] = net
@@ -483,7 +493,8 @@ def generate(seed: int, tier: str = "quick") -> Dict[str, Any]:
         "n_programs": rc.choice([1, 2, 3, 5]),
         "fault_class": rc.choice(["none", "faults", "faults"]),
         "ctx_share": rc.choice([0.5, 0.7, 0.9]),
-        "modes": rc.choice([MODES, MODES, ["runner"], ["with_C", "with_I"], ["runner", "direct"]]),
+        "modes": rc.choice([MODES, MODES, ["runner"], ["with_C", "with_I"], ["runner", "direct"],
+                            ["runner", "nested_runner"]]),
     }
     fault_kinds = []
     if cfg["fault_class"] == "faults":
@@ -533,7 +544,7 @@ def exec_history(trace: Dict[str, Any]) -> Dict[str, Any]:
         decls = {"resource": celpy.celtypes.MapType, "now": celpy.celtypes.TimestampType}
         decls.update(L.DECLARATIONS)
         runner_for = {"runner": L.C7N_Interpreted_Runner, "with_I": celpy.InterpretedRunner,
-                      "with_C": celpy.CompiledRunner}
+                      "with_C": celpy.CompiledRunner, "nested_runner": L.C7N_Interpreted_Runner}
         for op in trace["ops"]:
             prog = trace["programs"][op["prog"]]
             kind, params, mode, k = prog["kind"], prog["params"], op["mode"], op["k"]
@@ -554,7 +565,7 @@ def exec_history(trace: Dict[str, Any]) -> Dict[str, Any]:
                 if mode == "direct":
                     with L.C7NContext(filter=flt):
                         return direct_call(kind, params, resource_cel)
-                key = f"{mode}|{op['prog']}"
+                key = f"{runner_for[mode].__name__}|{op['prog']}"
                 prgm = compiled.get(key)
                 if prgm is None:
                     env = celpy.Environment(annotations=dict(decls), runner_class=runner_for[mode])
@@ -562,6 +573,11 @@ def exec_history(trace: Dict[str, Any]) -> Dict[str, Any]:
                     compiled[key] = prgm
                 if mode == "runner":
                     return prgm.evaluate(activation, filter=flt)
+                if mode == "nested_runner":
+                    # the integration pattern of the library's own tests: an outer context around
+                    # C7N_Interpreted_Runner.evaluate(..., filter=F_k); F_k is the one that counts
+                    with L.C7NContext(filter=FakeFilter(sim, -k)):
+                        return prgm.evaluate(activation, filter=flt)
                 with L.C7NContext(filter=flt):
                     return prgm.evaluate(activation)
 
@@ -734,7 +750,9 @@ ASSUMPTIONS = [
     "c7nlib, celpy, ipaddress, packaging, fnmatch, jmespath are real",
     "the helper half of the property is a pure function of its inputs: it is sampled against small "
     "independent reference models (sim/ref_c7n.py) only as the per-operation reference",
-    "nested contexts and threads sharing C7N are outside the stated quantifier and not asserted",
+    "of nested contexts only the library's own integration pattern is exercised (an outer "
+    "C7NContext around C7N_Interpreted_Runner.evaluate(filter=F_k)); threads sharing C7N are "
+    "outside the stated quantifier",
     "inputs on which the statement is silent (host bits set in a network, non-numeric versions) "
     "are not asserted",
 ]
